@@ -69,6 +69,7 @@ def find_loop(ext):
     return None
 
 
+@guarded("oi")
 def obligations():
     ext = loader.extract(KEY)
     loop = find_loop(ext)
